@@ -3488,7 +3488,6 @@ orc_compiler_sse_register_rules (OrcTarget *target)
   orc_rule_register (rule_set, "convsuslw", sse_rule_convsuslw, NULL);
   orc_rule_register (rule_set, "mulslq", sse_rule_mulslq, NULL);
   orc_rule_register (rule_set, "mulhsl", sse_rule_mulhsl, NULL);
-  orc_rule_register (rule_set, "convsssql", sse_rule_convsssql_sse41, NULL);
   REG(cmpeqq);
 #endif
 
@@ -3497,6 +3496,10 @@ orc_compiler_sse_register_rules (OrcTarget *target)
       ORC_TARGET_SSE_SSE4_2);
 
   REG(cmpgtsq);
+#ifndef MMX
+  /* uses pcmpgtq, which is SSE 4.2 */
+  orc_rule_register (rule_set, "convsssql", sse_rule_convsssql_sse41, NULL);
+#endif
 
   /* SSE 4a -- no rules */
 }
